@@ -80,9 +80,18 @@ fn sweep_n(n: usize, ls: &[usize], rec: &mut Rec) {
 fn whole_body_loop(n: usize, total: usize, chunked: bool, rec: &mut Rec) {
     // the sender is a POST, or one of four body-less methods with the escape hatch, in turn
     let turn = (n + total / 1000) % 5;
-    let variant = if turn == 0 { 0u8 } else { 2 | ((turn as u8 - 1) << 5) };
+    // (plus, by buffer size: one more head write, HTTP/1.0 with both framing headers left to C03, a
+    // non-framing transfer-encoding on the original, a flow produced by a redirect)
+    let extra = [0u16, 256, 512, 1024, 2048, 0][(n / 3 + total / 5000) % 6];
+    let variant: u16 = if turn == 0 { extra & (256 | 512 | 2048) } else { 2 | ((turn as u16 - 1) << 5) | (extra & (256 | 1024)) };
     rec.cov(if turn == 0 { "loop-sender/POST" } else { "loop-sender/despite-method" });
-    let mut s = match crate::drive::body_sender_ex(if chunked { None } else { Some(total as u64) }, false, false, variant) {
+    // an HTTP/1.0 request that names chunked AND carries a content-length: the coding decides
+    let both_on_10 = chunked && turn == 0 && extra == 512;
+    let variant = if both_on_10 { variant | 4 } else { variant };
+    if both_on_10 {
+        rec.cov("loop-sender/http10-chunked-and-content-length");
+    }
+    let mut s = match crate::drive::body_sender_ex(if chunked { None } else { Some(total as u64) }, both_on_10, false, variant) {
         Ok(s) => s,
         Err(e) => return rec.fail("C19/setup", e),
     };
@@ -223,6 +232,7 @@ impl Property for P {
             ("in>out-5/fitted-hexdigits=4".into(), 100),
             ("loop/chunked/tiny-buffer".into(), 3),
             ("loop/chunked/more-than-65536-chunks".into(), 1),
+            ("loop-sender/http10-chunked-and-content-length".into(), 1),
             ("loop/chunked/multi-chunk-buffer".into(), 3),
             ("loop/sized/tiny-buffer".into(), 3),
         ]
